@@ -19,6 +19,9 @@ template<typename T> struct laplace_kernel {   // exp(-L1 distance)
 template<typename T> struct compact_kernel {   // Epanechnikov-like: max(0, 1 - d^2 / 4), zero beyond distance 2
   T operator()(const std::vector<T>& a, const std::vector<T>& b) const { T d = 0; for (size_t i = 0; i < a.size(); ++i) d += (a[i] - b[i]) * (a[i] - b[i]); return std::max<T>(0, 1 - d / 4); }
 };
+template<typename T> struct indicator_kernel {   // returns an INTEGER (1 inside the ball of radius 2, else 0): the library must not drop into integer arithmetic
+  int operator()(const std::vector<T>& a, const std::vector<T>& b) const { T d = 0; for (size_t i = 0; i < a.size(); ++i) d += (a[i] - b[i]) * (a[i] - b[i]); return d <= 4 ? 1 : 0; }
+};
 template<typename T> struct bandwidth_kernel {   // stateful: exp(-d^2 / (2 h^2)); default h = 1, monitors use h != 1
   T h;
   explicit bandwidth_kernel(T bw = 1): h(bw) {}
@@ -44,6 +47,7 @@ template<> const char* kname<gaussian_kernel<double>>() { return "gauss-f64"; }
 template<> const char* kname<laplace_kernel<float>>() { return "laplace-f32"; }
 template<> const char* kname<laplace_kernel<double>>() { return "laplace-f64"; }
 template<> const char* kname<compact_kernel<double>>() { return "compact-f64"; }
+template<> const char* kname<indicator_kernel<double>>() { return "indicator-int-f64"; }
 
 template<typename T> struct Model {
   std::vector<std::vector<T>> pts;     // every accepted point
@@ -307,7 +311,8 @@ static void deep_levels_case(Rng& r) {
 void run_case(uint64_t idx, Rng& r) {
   if (idx % 97 == 23) { deep_levels_case(r); return; }
   if (idx % 97 == 11) { huge_dimension_case(r); return; }
-  switch (r.below(8)) {
+  switch (r.below(9)) {
+    case 8: program<double, indicator_kernel<double>>(r); count("integer_valued_kernel_programs"); break;
     case 7: program<double, amplitude_kernel<double>>(r); count("huge_amplitude_kernel_programs"); break;
     case 6: program<float, amplitude_kernel<float>>(r); count("huge_amplitude_kernel_programs"); break;
     case 5: program<double, bandwidth_kernel<double>>(r); count("stateful_kernel_programs"); break;
